@@ -80,4 +80,12 @@ ListVerdicts ==
        LET c == Lists[i]
            p == ParOf(c)
        IN PrintT(ToJson([lid |-> i, next |-> L_Next(p, c.w, c.nb), prev |-> L_Prev(p, c.w, c.pb)]))
+
+\* recorded renderings of the previous / next tag forms {p, w: [s, e], pf: [flag, s, e], nf: [flag, s, e]}
+Forms == JsonDeserialize("forms.json")
+FormVerdicts ==
+    \A i \in 1..Len(Forms) :
+       LET c == Forms[i]
+           p == ParOf(c)
+       IN PrintT(ToJson([fid |-> i, prev |-> F_Prev(p, c.w, c.pf), next |-> F_Next(p, c.w, c.nf)]))
 =============================================================================
